@@ -444,17 +444,17 @@ func runC07Lock(c *Ctx, r *Rng, ch Chooser, cached bool, progs [][]regOp, passes
 	}
 	rr.takeDelivered()
 	total := rr.total
-	// model-independent oracle on what the reporter really received
-	if total < rr.recPre {
-		rr.failed = false
-		rr.fail("violated", "recorded-before-close-lost", fmt.Sprintf("%d increments recorded on live scopes, %d delivered", rr.recPre, total))
-	} else if total > rr.recAll {
-		rr.failed = false
-		rr.fail("violated", "delivered-more-than-recorded", fmt.Sprintf("%d recorded, %d delivered", rr.recAll, total))
+	// model-independent oracle on what the reporter really received — only when the whole execution ran
+	// under the scheduler's control (after a rejected step the threads were released and ran unaccounted)
+	if !rr.failed {
+		if total < rr.recPre {
+			rr.fail("violated", "recorded-before-close-lost", fmt.Sprintf("%d increments recorded on live scopes, %d delivered", rr.recPre, total))
+		} else if total > rr.recAll {
+			rr.fail("violated", "delivered-more-than-recorded", fmt.Sprintf("%d recorded, %d delivered", rr.recAll, total))
+		}
 	}
 	if !rr.failed {
-		rep := rr.ask(fmt.Sprintf("final %d", total))
-		_ = rep
+		rr.ask(fmt.Sprintf("final %d", total))
 	}
 	rr.d.Ask("end")
 	w.closer.Close()
